@@ -15,7 +15,7 @@ import os
 import numpy as np
 
 PROP = 'C05'
-TARGETS = ['T1', 'T1b', 'T1c', 'T4', 'T11', 'T11b', 'T11c', 'T11d', 'T11e', 'T11f', 'T11g', 'T12']
+TARGETS = ['T1', 'T1b', 'T1c', 'T4', 'T11', 'T11b', 'T11c', 'T11d', 'T11e', 'T11f', 'T11g', 'T12', 'T12b']
 LEAN_MODULES = ['HdVerif.Props.C05']
 MODEL_MODULES = ['HdVerif.Model.FrameAccess', 'HdVerif.Model.EncapBytes', 'HdVerif.Model.FramePaths']
 NAMESPACE = 'HdVerif.C05'
